@@ -265,6 +265,16 @@ func check(c Case) engine.Outcome {
 	// buy-and-hold equals value_i/value_0 - 1; ComputeWithOutcome = (Compute, Outcome(closings, actions))
 	if len(c.Values) > 0 {
 		sn := stub.SnapshotsFromCloses(c.Values)
+		// the other fields of a snapshot are none of the accounting's business: untraded bars
+		// (volume 0, as indices and FX pairs have throughout), flat bars, a gap in the open
+		for i, x := range sn {
+			switch (i + c.Cap + len(c.Actions)) % 4 {
+			case 0, 1:
+				x.Volume = 0
+			case 2:
+				x.Open, x.High, x.Low = x.Close, x.Close, x.Close
+			}
+		}
 		bh := pipe.Run([][]*asset.Snapshot{sn}, pipe.Opts{}, func(cs []<-chan *asset.Snapshot) []<-chan float64 {
 			a, oc := strategy.ComputeWithOutcome(strategy.NewBuyAndHoldStrategy(), cs[0])
 			go helper.Drain(a)
